@@ -90,7 +90,7 @@ def digits_case(rng, w, n, r):
 
 
 def gen(rng, tier):
-    reps = 6 if tier == "thorough" else 1
+    reps = 12 if tier == "thorough" else 3
     cf = cfgs(tier)
     for cfg in cf:
         w, n = wn(cfg)
